@@ -699,7 +699,11 @@ func finalize(o *op, m *model, hist map[string][]uint64, idx uint64, rng *core.R
 	case "delete", "delete-cas", "delete-tree":
 		o.Val, o.Flags, o.LockIdx, o.Session = "", 0, 0, ""
 	case "set", "cas":
-		o.Session = ""
+		// a plain write may carry a Session field (a client echoing back what it read); it must be
+		// ignored: only lock/unlock change the holder
+		if o.Session == "" && rng.Chance(20) {
+			o.Session = sessions[rng.Intn(len(sessions))]
+		}
 	}
 }
 
@@ -795,7 +799,7 @@ func TestZZVerifC03(t *testing.T) {
 	var alpha []op
 	for _, k := range []string{"a", "a/b", "ab"} {
 		alpha = append(alpha,
-			op{Verb: "set", Key: k, Val: "x"}, op{Verb: "set", Key: k, Val: "y"},
+			op{Verb: "set", Key: k, Val: "x"}, op{Verb: "set", Key: k, Val: "y", Session: sessions[0]},
 			op{Verb: "cas", Key: k, Val: "y", IdxKind: "zero"}, op{Verb: "cas", Key: k, Val: "y", IdxKind: "current"}, op{Verb: "cas", Key: k, Val: "z", IdxKind: "stale"},
 			op{Verb: "delete", Key: k}, op{Verb: "delete-cas", Key: k, IdxKind: "current"}, op{Verb: "delete-cas", Key: k, IdxKind: "stale"},
 			op{Verb: "lock", Key: k, Val: "x", Session: sessions[0]}, op{Verb: "lock", Key: k, Val: "x", Session: sessions[1]},
